@@ -257,6 +257,7 @@ type Sel struct {
 	OrderBy     []OrderItem
 	Limit       *int
 	Offset      *int
+	ZeroPad     int // leading zeros written in front of the LIMIT / OFFSET / FETCH counts (the value stays decimal)
 	OffsetRows  bool
 	Fetch       *Fetch
 	For         *For
@@ -389,13 +390,13 @@ func (s Sel) Build() S {
 		names = append(names, orderNames(s.OrderBy)...)
 	}
 	if s.Limit != nil {
-		t = append(t, kw("LIMIT"), pt(strconv.Itoa(*s.Limit)))
+		t = append(t, kw("LIMIT"), pt(strings.Repeat("0", s.ZeroPad)+strconv.Itoa(*s.Limit)))
 		v := *s.Limit
 		n.Limit = &v
 		fs = append(fs, []string{"select.limit"})
 	}
 	if s.Offset != nil {
-		t = append(t, kw("OFFSET"), pt(strconv.Itoa(*s.Offset)))
+		t = append(t, kw("OFFSET"), pt(strings.Repeat("0", s.ZeroPad)+strconv.Itoa(*s.Offset)))
 		if s.OffsetRows {
 			t = append(t, kw("ROWS"))
 			fs = append(fs, []string{"select.offset.rows"})
@@ -406,7 +407,7 @@ func (s Sel) Build() S {
 	}
 	if s.Fetch != nil {
 		f := s.Fetch
-		t = append(t, kw("FETCH"), kw(f.Type), pt(strconv.FormatInt(f.N, 10)))
+		t = append(t, kw("FETCH"), kw(f.Type), pt(strings.Repeat("0", s.ZeroPad)+strconv.FormatInt(f.N, 10)))
 		if f.Percent {
 			t = append(t, kw("PERCENT"))
 		}
